@@ -37,6 +37,8 @@ Oracle, with c = n.copy()
 """
 from __future__ import annotations
 
+import os
+
 from hypothesis import strategies as st
 
 from vlib import gen_decls as gd
@@ -238,15 +240,17 @@ def apply_prep(root, name, idx):
         if not loops:
             return "refused:no_loop"
         loop = loops[idx % len(loops)]
+        # force: the dependence analysis is not this property's subject
+        force = {"force": True}
         if name == "omp_parallel_do":
-            OMPParallelLoopTrans().apply(loop)
+            OMPParallelLoopTrans().apply(loop, force)
         elif name == "omp_do_parallel":
-            OMPLoopTrans().apply(loop)
+            OMPLoopTrans().apply(loop, force)
             OMPParallelTrans().apply(loop.parent.parent)
         elif name == "acc_kernels":
             ACCKernelsTrans().apply(loop)
         elif name == "acc_loop_parallel":
-            ACCLoopTrans().apply(loop)
+            ACCLoopTrans().apply(loop, force)
             ACCParallelTrans().apply(loop.parent.parent)
         elif name == "acc_data":
             ACCDataTrans().apply(loop)
@@ -488,8 +492,58 @@ def apply_edit(tree, num, kind, pa, pb):
 # ---------------------------------------------------------------------------
 # the oracle
 # ---------------------------------------------------------------------------
-class Skip(Exception):
-    """Structural mismatch already reported: later oracles are moot."""
+def _localise_tags(entry, node):
+    """snapshot.snap() records table.get_tags(), which includes the tags
+    inherited from enclosing scopes: an attached subtree and its detached
+    copy would differ by construction.  Record each table's own tags."""
+    if entry[3] is not None and getattr(node, "symbol_table", None) \
+            is not None:
+        entry[3]["tags"] = sorted(
+            [tag, sym.name.lower()]
+            for tag, sym in node.symbol_table.tags_dict.items())
+    kids = list(node.children)
+    if len(kids) == len(entry[2]):
+        for sub, kid in zip(entry[2], kids):
+            _localise_tags(sub, kid)
+
+
+def lsnap(node, text=False):
+    """snap() with per-table (not inherited) tags."""
+    out = snap(node, text=text)
+    if isinstance(out["tree"], list) and len(out["tree"]) == 4:
+        _localise_tags(out["tree"], node)
+    return out
+
+
+def unequal_nodes(node_a, node_b, out, path="root"):
+    """Innermost pairs that compare unequal although all their children
+    compare equal: (path, description)."""
+    # pylint: disable=import-outside-toplevel
+    from psyclone.psyir.nodes import Routine, ScopingNode
+    if len(out) >= 5:
+        return
+    if type(node_a) is not type(node_b) or \
+            len(node_a.children) != len(node_b.children):
+        out.append((path, f"{type(node_a).__name__}:structure"))
+        return
+    inner = False
+    for num, (kid_a, kid_b) in enumerate(zip(node_a.children,
+                                             node_b.children)):
+        if not kid_a == kid_b:
+            inner = True
+            unequal_nodes(kid_a, kid_b, out,
+                          f"{path}[{num}]{type(kid_a).__name__}")
+    if inner:
+        return
+    what = type(node_a).__name__
+    if isinstance(node_a, ScopingNode) and \
+            not node_a.symbol_table == node_b.symbol_table:
+        what += ".symbol_table"
+    elif isinstance(node_a, Routine) and node_a.return_symbol is not None \
+            and node_b.return_symbol is not None \
+            and node_a.return_symbol.name == node_b.return_symbol.name:
+        what = "Routine.return_symbol"
+    out.append((path, what))
 
 
 def features(node):
@@ -518,7 +572,10 @@ def features(node):
             for site, _, used in sites:
                 if id(used) in owner and site in PROPERTY_SITES:
                     prop_links.setdefault(site, set()).add(used.name.lower())
+    from psyclone.psyir.nodes import Routine
     return {
+        "functions": sorted(r.name.lower() for r in node.walk(Routine)
+                            if r.return_symbol is not None),
         "scopes": len(scopes),
         "local_symbol_referenced": bool(tree_used),
         "property_links": {k: sorted(v) for k, v in sorted(prop_links.items())},
@@ -540,7 +597,7 @@ def check_case(case, report, note=None):
     note("label", f"target:{type(orig).__name__}")
     feat, owner, scopes_n = features(orig)
     extra = {"feat": feat}
-    snap_n = snap(orig)
+    snap_n = lsnap(orig)
     try:
         copy = orig.copy()
     except Exception as err:        # pylint: disable=broad-except
@@ -565,9 +622,14 @@ def check_case(case, report, note=None):
     except Exception as err:        # pylint: disable=broad-except
         equal = f"raised {err!r}"
     if equal is not True:
-        fail(f"O1:eq:{type(orig).__name__}",
-             f"copy of {type(orig).__name__} == original gives {equal}")
-    snap_c = snap(copy)
+        culprits = []
+        if equal is False:
+            unequal_nodes(orig, copy, culprits)
+        kinds = sorted({what for _, what in culprits}) or ["?"]
+        fail("O1:eq:" + "+".join(kinds),
+             f"copy of {type(orig).__name__} == original gives {equal}; "
+             f"innermost unequal pairs: {culprits}")
+    snap_c = lsnap(copy)
     if snap_c != snap_n:
         structural = False
         fail(f"O1:snap:{type(orig).__name__}",
@@ -670,8 +732,8 @@ def check_case(case, report, note=None):
 
     def state(side):
         if side == "orig":
-            return snap(root, text=True)
-        return snap(copy, text=writable)
+            return lsnap(root, text=True)
+        return lsnap(copy, text=writable)
 
     cache = {"orig": state("orig"), "copy": state("copy")}
     edits_ok = 0
@@ -755,7 +817,15 @@ def cls_shared_interface(case):
             and edit.get("status") == "ok")
 
 
+def cls_function_eq(case):
+    """Routine.__eq__ compares return symbols by identity, so the copy of
+    any function (Routine with a return symbol) is != the original."""
+    return (case.get("bucket") == "O1:eq:Routine.return_symbol"
+            and bool(case.get("feat", {}).get("functions")))
+
+
 CLASSIFIERS = {
+    "routine_eq_return_symbol_identity": cls_function_eq,
     "symbol_property_refs_not_rebound": cls_property_refs,
     "typed_symbol_copy_shares_interface": cls_shared_interface,
 }
@@ -807,6 +877,7 @@ def run(ctx):
             ctx.label("trivial:no_local_symbol_referenced")
 
     ctx.hyp(prop, cases(), max_examples=ctx.scale(2000, 60000),
+            shrink=not os.environ.get("C15_NOSHRINK"),   # development aid
             key=lambda case: [case["source"], case["prep"], case["target"],
                               case["edits"]])
 
